@@ -55,7 +55,7 @@ def main():
                 direct_bad.append((i, "lookup by order id / trade id does not return the very object placed, or an order appears twice in the blotter"))
             # live list: contains every order that is not complete; an order once seen outside it never returns (shadow over time)
             for o in ob["orders"]:
-                if not o["complete"] and o["o"] not in live and not (o["status"] == "Executable" and "Execution complete" in o["log"]):
+                if not o["complete"] and o["o"] not in live:
                     direct_bad.append((i, "order %s is not complete but missing from the live list" % o["o"]))
             # bet id lookup for replacement orders
             for o in v["orders"]:
